@@ -42,6 +42,13 @@ structure St where
   v : JV
   id : Ident := .unknown
   ctx : Option PCtx := none
+  /-- this value (or one it was computed from) was emitted by a non-last alternative of `?//`
+      whose remaining alternatives are still pending: gojq's `opforkalt` intercepts ANY error
+      raised while it is pending, including errors raised by the continuation (as jq 1.6:
+      `[first([] as [$a] ?// $b | null)]` is `[null,null]`).  The direct-style evaluator cannot
+      resume an alternative from inside a continuation, so an error downstream of such a value
+      is the explicit outcome `unmodelled`. -/
+  pend : Bool := false
   deriving Inhabited
 
 inductive Stop where
@@ -65,10 +72,16 @@ def Res.outOfFuel : Res := ⟨[], .fuel⟩
 def Stop.isDone : Stop → Bool | .done => true | _ => false
 
 /-- sequencing: feed the outputs to `f` in order; the first non-`done` stop ends the stream -/
+def pendStop (pend : Bool) (s : Stop) : Stop :=
+  match pend, s with
+  | true, .err _ => .unmodelled "error downstream of an output of a non-last `?//` alternative (intercepted by the pending alternative)"
+  | _, s => s
+
 def Res.bindList (f : St → Res) (final : Stop) : List St → Res
   | [] => ⟨[], final⟩
   | x :: xs =>
-    let r1 := f x
+    let r0 := f x
+    let r1 : Res := if x.pend then ⟨r0.outs.map ({ · with pend := true }), pendStop true r0.stop⟩ else r0
     match r1.stop with
     | .done => let r2 := Res.bindList f final xs; ⟨r1.outs ++ r2.outs, r2.stop⟩
     | s => ⟨r1.outs, s⟩
@@ -437,12 +450,12 @@ def foreachLoop (bindPat : St → Except Stop (List Env)) (upd : St → Env → 
   | [], _, _, acc => ⟨acc, final⟩
   | x :: rest, sv, sid, acc =>
     match bindPat x with
-    | .error st => ⟨acc, st⟩
+    | .error st => ⟨acc, pendStop x.pend st⟩
     | .ok envs =>
       let (r1, sv', sid') := foreachEnvs (upd x) ext envs sv sid acc
       match r1.stop with
       | .done => foreachLoop bindPat upd ext final rest sv' sid' r1.outs
-      | _ => r1
+      | st => ⟨r1.outs, pendStop x.pend st⟩
 
 /-- string interpolation `p₁ + p₂ + … + pₙ` (left-nested `+`): the LAST part is the outermost
     loop.  `parts` is given reversed. -/
@@ -506,7 +519,7 @@ def reduceStep (bindPat : St → Except Stop (List Env)) (upd : St → Env → J
   | .error e => .error e
   | .ok (sv, sid) =>
     match bindPat x with
-    | .error e => .error e
+    | .error e => .error (pendStop x.pend e)
     | .ok envs =>
       envs.foldl (fun acc env' =>
         match acc with
@@ -517,7 +530,7 @@ def reduceStep (bindPat : St → Except Stop (List Env)) (upd : St → Env → J
           | .done => (match ru.outs.getLast? with
             | some l => .ok (l.v, l.id)
             | none => .ok (sv, sid))
-          | st => .error st) (.ok (sv, sid))
+          | st => .error (pendStop x.pend st)) (.ok (sv, sid))
 
 /-- `.[]` -/
 def iterate (x : St) : Res :=
@@ -850,11 +863,11 @@ def evalAlts : Nat → Cfg → Env → List Pattern → List Pattern → JV → 
         match bindPattern fuel cfg env0 p xv xid none with
         | .error st => ⟨[], st⟩
         | .ok envs => forEnvs envs fun env' => eval fuel cfg env' body s
+      -- `opforkalt` intercepts every error (break and halt included) and runs the next alternative
       match attempt.stop with
-      | .err (.halt _ _) => attempt
-      | .err _ => (⟨attempt.outs, .done⟩ : Res).append fun _ =>
+      | .err _ => (⟨attempt.outs.map ({ · with pend := true }), .done⟩ : Res).append fun _ =>
           evalAlts fuel cfg env allPats rest xv xid body s
-      | _ => attempt
+      | _ => ⟨attempt.outs.map ({ · with pend := true }), attempt.stop⟩
 
 /-- destructuring: the environments produced by binding `p` to `x` (generators in object-key
     queries multiply them); errors of the pattern are errors of the binding -/
@@ -1014,7 +1027,8 @@ def evalPaths : Nat → Cfg → Env → Query → St → List (List JV) × Stop
   | 0, _, _, _, _ => ([], .fuel)
   | fuel + 1, cfg, env, l, s =>
     let r := evalCall fuel cfg env "path" [l] (withCtx none s)
-    (r.outs.map fun o => match o.v with | .arr p => p | _ => [], r.stop)
+    if r.outs.any (·.pend) then ([], .unmodelled "update through paths emitted under a pending `?//` alternative")
+    else (r.outs.map fun o => match o.v with | .arr p => p | _ => [], r.stop)
 
 /-- `l |= f` where `f` is a query (`.inl`) or `. op $x` for a fixed value (`.inr (name, x)`):
     `reduce path(l) as $p (.; first(setpath($p; getpath($p) | f)) // (record $p for deletion))`
